@@ -28,26 +28,63 @@ Proof.
   now rewrite N1, N2, N3, N4.
 Qed.
 
-(* an unterminated version: no ')' before the end of the input (or a NUL) *)
-Theorem reject_open_paren : forall w num, forallb numc w = true -> number_loop num w = Err.
+(* an unterminated clause: before its closing character comes the end of the input (x = [], or a NUL), a separator
+   ',' '|' or a further opening character of the clause's own kind (the D3.bad_in predicates): whatever stands behind that
+   character, the clause is an error - it does not swallow the separator and what follows *)
+Lemma bad_head_nil : bad_in_number (peek []) = true /\ bad_in_arch (peek []) = true /\ bad_in_stage (peek []) = true /\ bad_in_substvar (peek []) = true.
+Proof. repeat split. Qed.
+(* an unterminated version *)
+Theorem reject_open_paren : forall w num x, forallb numc w = true -> bad_in_number (peek x) = true -> number_loop num (w ++ x) = Err.
 Proof.
-  induction w as [|c w IH]; intros num H; [reflexivity|]. cbn [forallb] in H. apply andb_true_iff in H as [Hc Hw].
-  unfold numc in Hc. apply negb_true_iff in Hc. apply orb_false_iff in Hc as [C1 C2]. cbn [number_loop]. rewrite C1, C2. now apply IH.
+  induction w as [|c w IH]; intros num x H B.
+  - cbn [app]. destruct x as [|c r]; [reflexivity|]. cbn [peek] in B. cbn [number_loop]. now rewrite B.
+  - cbn [forallb] in H. apply andb_true_iff in H as [Hc Hw].
+    unfold numc in Hc. apply negb_true_iff in Hc. apply orb_false_iff in Hc as [C1 C2]. cbn [app number_loop]. rewrite C1, C2. now apply IH.
 Qed.
 
 (* an unterminated ${substvar *)
-Theorem reject_open_substvar : forall w name, forallb subc w = true -> substvar_loop name w = Err.
+Theorem reject_open_substvar : forall w name x, forallb subc w = true -> bad_in_substvar (peek x) = true -> substvar_loop name (w ++ x) = Err.
 Proof.
-  induction w as [|c w IH]; intros name H; [reflexivity|]. cbn [forallb] in H. apply andb_true_iff in H as [Hc Hw].
-  unfold subc in Hc. apply negb_true_iff in Hc. apply orb_false_iff in Hc as [C1 C2]. cbn [substvar_loop]. rewrite C1, C2. now apply IH.
+  induction w as [|c w IH]; intros name x H B.
+  - cbn [app]. destruct x as [|c r]; [reflexivity|]. cbn [peek] in B. cbn [substvar_loop]. now rewrite B.
+  - cbn [forallb] in H. apply andb_true_iff in H as [Hc Hw].
+    unfold subc in Hc. apply negb_true_iff in Hc. apply orb_false_iff in Hc as [C1 C2]. cbn [app substvar_loop]. rewrite C1, C2. now apply IH.
 Qed.
 
 (* an unterminated architecture name: no ']' or blank before the end *)
-Theorem reject_open_bracket : forall w name, forallb archc w = true -> arch_name_loop name w = Err.
+Theorem reject_open_bracket : forall w name x, forallb archc w = true -> bad_in_arch (peek x) = true -> arch_name_loop name (w ++ x) = Err.
 Proof.
-  induction w as [|c w IH]; intros name H; [reflexivity|]. cbn [forallb] in H. apply andb_true_iff in H as [Hc Hw].
-  unfold archc in Hc. apply negb_true_iff in Hc. apply orb_false_iff in Hc as [Hc C4]. apply orb_false_iff in Hc as [Hc C3].
-  apply orb_false_iff in Hc as [C1 C2]. cbn [arch_name_loop]. rewrite C1, C2, C3, C4. cbn [orb]. now apply IH.
+  induction w as [|c w IH]; intros name x H B.
+  - cbn [app]. destruct x as [|c r]; [reflexivity|]. cbn [peek] in B. cbn [arch_name_loop]. now rewrite B.
+  - cbn [forallb] in H. apply andb_true_iff in H as [Hc Hw].
+    unfold archc in Hc. apply negb_true_iff in Hc. apply orb_false_iff in Hc as [Hc C4]. apply orb_false_iff in Hc as [Hc C3].
+    apply orb_false_iff in Hc as [C1 C2]. cbn [app arch_name_loop]. rewrite C1, C2, C3, C4. cbn [orb]. now apply IH.
+Qed.
+(* an unterminated build-profile name *)
+Theorem reject_open_stage : forall w st x, forallb stagec w = true -> bad_in_stage (peek x) = true -> stage_loop st (w ++ x) = Err.
+Proof.
+  induction w as [|c w IH]; intros st x H B.
+  - cbn [app]. destruct x as [|c r]; [reflexivity|]. cbn [peek] in B. cbn [stage_loop]. now rewrite B.
+  - cbn [forallb] in H. apply andb_true_iff in H as [Hc Hw].
+    unfold stagec in Hc. apply negb_true_iff in Hc. apply orb_false_iff in Hc as [Hc C4]. apply orb_false_iff in Hc as [Hc C3].
+    apply orb_false_iff in Hc as [C1 C2]. cbn [app stage_loop]. rewrite C1, C2, C3, C4. cbn [orb]. now apply IH.
+Qed.
+(* the characters that end a clause with an error are not blanks, and not the clause's closing character *)
+Lemma bad_number_facts c : bad_in_number c = true -> is_ws c = false /\ eqc c 41 = false.
+Proof.
+  intros B. pose proof (by_enum (fun c => negb (bad_in_number c) || (negb (is_ws c) && negb (eqc c 41))) eq_refl c) as F. cbv beta in F.
+  rewrite B in F. cbn [negb orb] in F. apply andb_true_iff in F as [F1 F2]. now apply negb_true_iff in F1, F2.
+Qed.
+Lemma bad_arch_facts c : bad_in_arch c = true -> is_ws c = false /\ eqc c 93 = false /\ eqc c 33 = false.
+Proof.
+  intros B. pose proof (by_enum (fun c => negb (bad_in_arch c) || (negb (is_ws c) && negb (eqc c 93) && negb (eqc c 33))) eq_refl c) as F. cbv beta in F.
+  rewrite B in F. cbn [negb orb] in F. apply andb_true_iff in F as [F F3]. apply andb_true_iff in F as [F1 F2]. now apply negb_true_iff in F1, F2, F3.
+Qed.
+Lemma eat_ws_keeps w x : is_ws (peek x) = false -> eat_ws (w ++ x) = eat_ws w ++ x.
+Proof.
+  intros Hx. induction w as [|c w IH]; cbn [app eat_ws].
+  - destruct x as [|c r]; [reflexivity|]. cbn [peek] in Hx. cbn [eat_ws]. now rewrite Hx.
+  - destruct (is_ws c); [exact IH|reflexivity].
 Qed.
 
 (* mixed negation inside one architecture list *)
